@@ -120,18 +120,65 @@ def c_proximal():
 
 
 def c_zero_step():
-    """step size exactly 0 (python int and float), the one value a symbolic step size never takes: the step is still an evaluation of f at the returned point"""
+    """step sizes a symbolic (positive) step size never takes: exactly 0 (python int and float) and a negative number.  Whatever the value, each step records
+    the same samples / side constraints as in the generic case and ties the returned objects by its documented relation."""
     out = []
-    for label, gamma in (('int-zero', 0), ('float-zero', 0.0)):
+    for label, gamma in (('int-zero', 0), ('float-zero', 0.0), ('negative', -1.5)):
+        S.new_world()
         step = load_step('proximal_step')
         f, x0 = SFunc('f'), S.WORLD.point('x0')
         x, gx, fx = step(x0, f, gamma)
         k = StepCheck('proximal_step', label)
-        k.same_point('relation', x, x0, [], 'x = x0 - 0 g = x0')
+        k.same_point('relation', x, x0 - gamma * gx, [], 'x = x0 - gamma g')
         k.exactly('records', shape(f.log), ['add_point'], 'exactly one sample recorded on f and nothing else')
         t = f.log[0][1] if f.log else (None, None, None)
         k.exactly('recorded_is_returned', (t[0] is x, t[1] is gx, t[2] is fx), (True, True, True), 'the recorded triplet is (x, g, fx)')
         out += k.obs
+        for notion in ('absolute', 'relative'):
+            S.new_world()
+            step = load_step('inexact_gradient_step')
+            f, x0 = SFunc('f'), S.WORLD.point('x0')
+            eps = SScalar(z3.Real('epsilon'))
+            x, d, fx0 = step(x0, f, gamma, eps, notion=notion)
+            k = StepCheck('inexact_gradient_step', '%s;%s' % (notion, label))
+            k.exactly('records', shape(f.log), ['oracle', 'add_constraint'], 'one oracle call at x0 and one side constraint on f')
+            k.same_point('relation', x, x0 - gamma * d, [], 'x = x0 - gamma d')
+            out += k.obs
+        S.new_world()
+        step = load_step('epsilon_subgradient_step')
+        f, x0 = SFunc('f'), S.WORLD.point('x0')
+        x, g0, f0, eps = step(x0, f, gamma)
+        k = StepCheck('epsilon_subgradient_step', label)
+        k.exactly('records', sorted(shape(f.log)), sorted(['value', 'add_point', 'add_constraint']), 'value at x0, one sample, one side constraint')
+        k.same_point('relation', x, x0 - gamma * g0, [], 'x = x0 - gamma g0')
+        out += k.obs
+        S.new_world()
+        step = load_step('bregman_gradient_step')
+        h = SFunc('h')
+        gx0, sx0 = S.WORLD.point('gx0'), S.WORLD.point('sx0')
+        x, sx, hx = step(gx0, sx0, h, gamma)
+        k = StepCheck('bregman_gradient_step', label)
+        k.same_point('relation', sx, sx0 - gamma * gx0, [], 'sx = sx0 - gamma gx0')
+        k.exactly('records', shape(h.log), ['add_point'], 'one sample on the mirror map')
+        out += k.obs
+        S.new_world()
+        step = load_step('bregman_proximal_step')
+        h, f = SFunc('h'), SFunc('f')
+        sx0 = S.WORLD.point('sx0')
+        x, sx, hx, gx, fx = step(sx0, h, f, gamma)
+        k = StepCheck('bregman_proximal_step', label)
+        k.same_point('relation', sx, sx0 - gamma * gx, [], 'sx = sx0 - gamma gx')
+        k.exactly('records', (shape(h.log), shape(f.log)), (['add_point'], ['add_point']), 'one sample on each function')
+        out += k.obs
+        for opt in ('PD_gapI', 'PD_gapII'):
+            S.new_world()
+            step = load_step('inexact_proximal_step')
+            f, x0 = SFunc('f'), S.WORLD.point('x0')
+            res = step(x0, f, gamma, opt=opt)
+            k = StepCheck('inexact_proximal_step', '%s;%s' % (opt, label))
+            want_shape = {'PD_gapI': ['add_point', 'add_point', 'add_constraint'], 'PD_gapII': ['add_point', 'add_constraint']}[opt]
+            k.exactly('records', shape(f.log), want_shape, 'samples and one side constraint recorded on f')
+            out += k.obs
     return out
 
 
